@@ -134,8 +134,11 @@ func checkMassiveState(r *evid.Run, pool *wproto.Pool, d *DocState, c *tok.Conc,
 		seenRoot[k] = true
 	}
 	for _, route := range routes {
-		if (route == "mkdir" || route == "verify") && (!distinct || d.Verdict != "accept") {
-			continue // equally named roots: not settled for the filesystem operations (DESIGN.md section 5)
+		// equally named roots are not settled for Mkdir and for strict Verify (DESIGN.md section 5); a non-strict Verify
+		// of them is: every node path of every block has to exist, so the two modes must agree on nil / error
+		repeated := route == "verify" && !distinct && d.Verdict == "accept"
+		if (route == "mkdir" || route == "verify") && (!distinct || d.Verdict != "accept") && !repeated {
+			continue
 		}
 		rq := wproto.Req{Doc: doc, Branches: br}
 		switch route {
@@ -154,6 +157,10 @@ func checkMassiveState(r *evid.Run, pool *wproto.Pool, d *DocState, c *tok.Conc,
 		case "verify":
 			rq.Op, rq.Strict, rq.Branches = "verify", true, nil
 			rq.PreDoc = doc // the directories exist iff the simple mkdir accepts the document
+			if repeated {
+				// (the simple mkdir stops at the second block of a repeated root: the first block's tree is there)
+				rq.Strict, rq.PreLoose = false, true
+			}
 		}
 		simple := pool.Call(rq, 30*time.Second)
 		mq := perturb(rq, rng)
